@@ -385,6 +385,9 @@ func (r *runner) runScenario(sc Scenario) {
 		done <- err
 	}()
 	watchdog := 25 * time.Second
+	if sc.DlUs > 0 { // a call that is still running 3 s + tolerance after its caller's deadline does not return
+		watchdog = time.Duration(sc.DlUs+sc.TolUs)*time.Microsecond + 3*time.Second
+	}
 	returned := true
 	select {
 	case <-done:
